@@ -172,7 +172,7 @@ def run(prop, tier, seed, plan, replay_dir=None, merge=False, full=False, only_l
         for c, (k, where) in known_hit.items():
             log("KNOWN-FINDING: property=%s cause=%s %s (e.g. %s)" % (prop, c, k["text"], where))
         if replay_dir is None and merge:
-            evf = os.path.join(HERE, "evidence", prop + ".json")
+            evf = engines.evidence_path(prop)
             if os.path.exists(evf):
                 ev = json.load(open(evf))
                 ev["coverage"]["concurrent_programs"] = dict(programs=total, linearized=explained, tlc_states=states, modes=modes,
@@ -199,7 +199,7 @@ def run(prop, tier, seed, plan, replay_dir=None, merge=False, full=False, only_l
                                    "a call that has not returned after 8 s is reported as a hang"],
                       wall_s=round(time.time() - t0, 1), violations=len(viols))
             os.makedirs(os.path.join(HERE, "evidence"), exist_ok=True)
-            json.dump(ev, open(os.path.join(HERE, "evidence", prop + ".json"), "w"), indent=1)
+            json.dump(ev, open(engines.evidence_path(prop), "w"), indent=1)
         log("%s %s seed=%d: %d programs, %d linearized, %d violations, %d known, %.1fs" % (prop, tier, seed, total, explained, len(viols), len(known_hit), time.time() - t0))
         return rc
     finally:
